@@ -723,7 +723,7 @@ func init() {
 		Meta: func(c *core.Ctx) core.Meta {
 			return core.Meta{
 				Level:       "exploration",
-				Rule:        "(a) every sequential re-entrant history with k <= 3 (thorough 4) subscribers whose callbacks are scripted from {nothing, unsubscribe self, unsubscribe j, subscribe a new one, publish on a derived publisher} x 1..3 publishes: per (publish, subscription) the count must be 1 if registered before and not touched during, 0 if unsubscribed before, <= 1 always, subscription order among the untouched; (b) 1..4 concurrent publishers x 1..4 subscribe/unsubscribe churners with call/return stamps (registered throughout => exactly 1, Unsubscribe returned before Publish called => 0, never twice, stable subscriptions in order), PRNG yields or a publisher parked at the snapshot / before a delivery while a Subscribe+Unsubscribe pair completes; (c) Map chains of depth 1..3 with two subscribers per level, values published on the root and directly on every derived level, subscription churn on derived publishers, and Subscribe / Unsubscribe / Subscribe(copy of the subscription value) on the same and another publisher; (d) SubscribeOn(h) with 1..4 subscribers and handler capacity 0..2: exactly once each, on h's goroutine, and with deliveries pending on a busy handler while subscriptions are removed/added (registration at the time of the Publish call decides), with Subscribe before and after SubscribeOn (plain and derived publishers), and Unsubscribe on publishers the subscription is not registered with; (b)-(d) repeated under -race (deciding for publisher.go frames). distinct_nontrivial = enumerated sequential histories + distinct concurrent scenarios / hook-trace signatures",
+				Rule:        "(a) every sequential re-entrant history with k <= 3 (thorough 4) subscribers whose callbacks are scripted from {nothing, unsubscribe self, unsubscribe j, subscribe a new one, publish on a derived publisher} x 1..3 publishes: per (publish, subscription) the count must be 1 if registered before and not touched during, 0 if unsubscribed before, <= 1 always, subscription order among the untouched; (b) 1..4 concurrent publishers x 1..4 subscribe/unsubscribe churners with call/return stamps (registered throughout => exactly 1, Unsubscribe returned before Publish called => 0, never twice, stable subscriptions in order), PRNG yields or a publisher parked at the snapshot / before a delivery while a Subscribe+Unsubscribe pair completes; (c) Map chains of depth 1..3 with two subscribers per level, values published on the root and directly on every derived level, subscription churn on derived publishers, and Subscribe / Unsubscribe / Subscribe(copy of the subscription value) on the same and another publisher; (d) SubscribeOn(h) with 1..4 subscribers and handler capacity 0..2: exactly once each, on h's goroutine, and with deliveries pending on a busy handler while subscriptions are removed/added (registration at the time of the Publish call decides), with Subscribe before and after SubscribeOn (plain and derived publishers), and Unsubscribe on publishers the subscription is not registered with; (b)-(d) repeated under -race (deciding for publisher.go frames). distinct_nontrivial = enumerated sequential histories + distinct concurrent scenarios / hook-trace signatures; (round 7) SubscribeOn(handler of capacity 0/1/4) set on the origin or a middle level BEFORE Map chains of depth 1..3 are derived: every level delivers in order, Publish never wedges the handler",
 				Assumptions: []string{"a subscription added or removed during a Publish may or may not see that value", "SubscribeOn uses a handler other than the publishing goroutine's own"},
 				Exhaustive:  true,
 			}
